@@ -452,7 +452,7 @@ fn local_name(rng: &mut Rng, used: &mut Vec<String>) -> String {
         }
         3 => {
             // an identifier that starts with a keyword and goes on with `_` or a digit (one word, not two)
-            let n = rng.pick(&["ref_x", "if_", "while_1", "type_a", "var_b", "proc_c", "of_d", "array_e", "else_f", "ref1", "if0", "of_", "proc1", "type2", "var3", "while4", "else5", "array6", "proc9x", "type0_"]).to_string();
+            let n = rng.pick(&["ref_x", "if_", "while_1", "type_a", "var_b", "proc_c", "of_d", "array_e", "else_f", "ref1", "if0", "of_", "proc1", "type2", "var3", "while4", "else5", "array6", "proc9x", "type0_", "n\u{161}", "a\u{141}1", "x\u{161}\u{161}y"]).to_string();
             if !used.contains(&n) {
                 used.push(n.clone());
                 return n;
